@@ -160,18 +160,22 @@ def c17_stress(ctx, tier, seed, run_engine):
     workers = 8
     per = 3_000_000 if tier == "thorough" else 600_000
     rounds = 5 if tier == "thorough" else 2
-    need = 3 * 64 + workers * per * rounds + 1000
+    # sequential reference execution in a fresh process (twice, to see whether it is reproducible): the main thread and
+    # then 1 + workers*rounds threads, one after another, draw `draws` priorities each
+    ref_threads = 1 + workers * rounds
+    draws = per + 256
     refs = []
     for k in range(2):
         p = os.path.join(ctx.work, "reference-%d-%d.bin" % (os.getpid(), k))
-        rc, o, _ = run_watchdog([exe, "--mode", "reference", "--draws", str(need), "--ref-out", p], ctx.harness, ctx.env, 900)
+        rc, o, _ = run_watchdog([exe, "--mode", "reference-seq", "--ref-threads", str(ref_threads), "--draws", str(draws), "--ref-out", p],
+                                ctx.harness, ctx.env, 900)
         if rc != 0:
             return _res(label, run, "inconclusive", why="reference stream process failed rc=%s: %s" % (rc, o[-1000:]))
         refs.append(p)
     same = open(refs[0], "rb").read() == open(refs[1], "rb").read()
     run = dict(run)
-    run["args"] = ["--mode", "stress", "--reference", refs[0], "--reference-stable", "yes" if same else "no", "--workers", str(workers),
-                   "--creations", str(per), "--rounds", str(rounds)]
+    run["args"] = ["--mode", "stress", "--reference", refs[0], "--ref-threads", str(ref_threads), "--reference-stable", "yes" if same else "no",
+                   "--workers", str(workers), "--creations", str(per), "--rounds", str(rounds)]
     r = run_engine(ctx, run, tier, seed, label=label)
     for p in refs:
         try:
